@@ -1,1 +1,328 @@
-/-! STUB — property C18 is not built yet. -/
+import Martian.Lemmas.Shape
+/-!
+C18 — Traffic shaping delays or cuts a response but never alters its bytes.
+Only property theorems and non-vacuity examples live here.
+
+Quantifiers: every raw configuration (any lists of throttles / halts / close actions, any byte
+strings for the throttle ranges), every byte string written, every split of it into `Write` calls
+(theorems are per call and compose through the context invariant `CtxOK`), every range start and
+head length, and every bucket adversary `caps : Nat → Nat` (remaining capacity `caps r + 1 ≥ 1` in
+round `r`).  Delays are events (`Ev.sleep`), not wall-clock time.
+-/
+namespace Martian.Props.C18
+open Martian Martian.Go Martian.Shape
+
+/-! ## The write loop -/
+
+/-- `write_loop_terminates` and no Go panic (negative slice bound, action index out of range):
+with any bucket adversary the loop ends within `len b + #actions + 1` rounds. -/
+theorem write_loop_terminates (valid : Bool) (caps : Nat → Nat) (c : Ctx) (acts : List Action) (b : Bytes)
+    (h : CtxOK c acts) :
+    (shapedWrite valid caps c acts b).status ≠ .fuel ∧ (shapedWrite valid caps c acts b).status ≠ .panic := by
+  rw [shapedWrite_eq]
+  exact ⟨(run valid caps c acts b h).nofuel, (run valid caps c acts b h).nopanic⟩
+
+/-- Bytes are never altered or reordered: what reaches the client in one `Write` call is a prefix
+of what was written, whatever the buckets do. -/
+theorem delivered_is_prefix_of_written (valid : Bool) (caps : Nat → Nat) (c : Ctx) (acts : List Action)
+    (b : Bytes) (h : CtxOK c acts) :
+    ∃ n, n ≤ b.length ∧ (shapedWrite valid caps c acts b).delivered = b.take n := by
+  rw [shapedWrite_eq]
+  obtain ⟨n, h1, h2, _, _⟩ := (run valid caps c acts b h).deliv
+  have hp := headPart_le c b
+  refine ⟨headPart c b + n, by simp only [List.length_drop] at h1; omega, ?_⟩
+  simp only [h2]
+  rw [List.take_add]
+
+/-- No close action fired ⇒ every byte written was delivered, in order. -/
+theorem no_close_delivers_all (valid : Bool) (caps : Nat → Nat) (c : Ctx) (acts : List Action) (b : Bytes)
+    (h : CtxOK c acts) (hok : (shapedWrite valid caps c acts b).status = .ok) :
+    (shapedWrite valid caps c acts b).delivered = b := by
+  rw [shapedWrite_eq] at hok ⊢
+  obtain ⟨n, h1, h2, h3, _⟩ := (run valid caps c acts b h).deliv
+  simp only at hok ⊢
+  rw [h2, h3 hok, List.take_length, List.take_append_drop]
+
+/-- The only way a shaped write is cut is a close action; a panic/fuel outcome does not exist and
+`ok` delivers everything (previous theorems), so the status is `ok` or `closed`. -/
+theorem status_ok_or_closed (valid : Bool) (caps : Nat → Nat) (c : Ctx) (acts : List Action) (b : Bytes)
+    (h : CtxOK c acts) :
+    (shapedWrite valid caps c acts b).status = .ok ∨ (shapedWrite valid caps c acts b).status = .closed := by
+  have := write_loop_terminates valid caps c acts b h
+  cases hs : (shapedWrite valid caps c acts b).status <;> simp_all
+
+/-- **close_at_k.**  If the call is cut, it is cut by a close action `a` of the shape that still
+had a non-zero count, it is the *first* such close action at or after the pending action, the
+write position is exactly its offset `k = a.byte`, and exactly the head part plus the
+`k - off` body bytes before `k` were delivered — for every bucket adversary. -/
+theorem close_at_k (valid : Bool) (caps : Nat → Nat) (c : Ctx) (acts : List Action) (b : Bytes)
+    (h : CtxOK c acts) (hc : (shapedWrite valid caps c acts b).status = .closed) :
+    ∃ (i : Nat) (a : Action), acts[i]? = some a ∧ isClose a = true ∧ a.count ≠ 0 ∧ c.off ≤ a.byte ∧
+      (shapedWrite valid caps c acts b).ctx.off = a.byte ∧
+      (shapedWrite valid caps c acts b).delivered = b.take (headPart c b + (a.byte - c.off).toNat) ∧
+      nidx acts c.next ≤ i ∧
+      ∀ (j : Nat) (a' : Action), nidx acts c.next ≤ j → j < i → acts[j]? = some a' → isClose a' = true →
+        a'.count = 0 := by
+  rw [shapedWrite_eq] at hc ⊢
+  have R := run valid caps c acts b h
+  simp only at hc ⊢
+  obtain ⟨n, h1, h2, _, h4⟩ := R.deliv
+  obtain ⟨i, a, k1, k2, k3, k4, k5, k6⟩ := R.closed hc
+  obtain ⟨o1, _⟩ := h4 (R.closedValid hc)
+  simp only at o1 k1 k5 k6
+  refine ⟨i, a, k1, k2, k3, by omega, k4, ?_, k5, k6⟩
+  rw [h2, List.take_add]
+  congr 2
+  omega
+
+/-- The same for a whole fresh response written in one call: `b = head ++ body`, nothing of the
+head written yet, write position = range start.  Delivered = head + exactly the body bytes before
+`k`, counted from the range start. -/
+theorem close_at_k_fresh (valid : Bool) (caps : Nat → Nat) (c : Ctx) (acts : List Action) (head body : Bytes)
+    (h : CtxOK c acts) (hw : c.headerWritten = 0) (hl : c.headerLen = head.length)
+    (hc : (shapedWrite valid caps c acts (head ++ body)).status = .closed) :
+    ∃ (i : Nat) (a : Action), acts[i]? = some a ∧ isClose a = true ∧ a.count ≠ 0 ∧ c.off ≤ a.byte ∧
+      (shapedWrite valid caps c acts (head ++ body)).delivered = head ++ body.take (a.byte - c.off).toNat := by
+  obtain ⟨i, a, k1, k2, k3, k4, _, k6, _, _⟩ := close_at_k valid caps c acts (head ++ body) h hc
+  refine ⟨i, a, k1, k2, k3, k4, ?_⟩
+  rw [k6]
+  have : headPart c (head ++ body) = head.length := by
+    unfold headPart; rw [hw, hl]; simp only [List.length_append]
+    split <;> omega
+  rw [this, List.take_append]
+  simp only [Nat.add_sub_cancel_left]
+  congr 1
+  exact List.take_of_length_le (by omega)
+
+/-- After an uncut call the context is again well formed (so the per-call theorems apply to the
+next `Write` of the same response), close actions were neither consumed nor altered, and no close
+action with a non-zero count was passed over. -/
+theorem ok_preserves_invariant (caps : Nat → Nat) (c : Ctx) (acts : List Action) (b : Bytes)
+    (h : CtxOK c acts) (hok : (shapedWrite true caps c acts b).status = .ok) :
+    CtxOK (shapedWrite true caps c acts b).ctx (shapedWrite true caps c acts b).acts ∧
+    (∀ (j : Nat) (a : Action), isClose a = true →
+      ((shapedWrite true caps c acts b).acts[j]? = some a ↔ acts[j]? = some a)) ∧
+    (∀ (j : Nat) (a : Action), nidx acts c.next ≤ j →
+      j < nidx (shapedWrite true caps c acts b).acts (shapedWrite true caps c acts b).ctx.next →
+      acts[j]? = some a → isClose a = true → a.count = 0) := by
+  rw [shapedWrite_eq] at hok ⊢
+  have R := run true caps c acts b h
+  simp only at hok ⊢
+  obtain ⟨k1, _, k3, k4⟩ := R.okInv hok rfl
+  exact ⟨⟨k1.sorted, k1.next⟩, k3, k4⟩
+
+/-! ## Actions apply only to responses whose URL matches a current shape -/
+
+/-- A request URL that matches no pattern of the connection gets no shaping context. -/
+theorem unmatched_url_not_shaped (l : Listener) (c : Conn) (rs hl : Int) (f : Option Int) :
+    (setContext l c none rs hl f).ctx.shaping = false := by
+  simp [setContext]
+
+/-- Without a shaping context `Write` delivers everything, performs no action and leaves the
+listener (shapes, counts) untouched. -/
+theorem unshaped_write_untouched (caps : Nat → Nat) (l : Listener) (c : Conn) (b : Bytes)
+    (h : c.ctx.shaping = false) :
+    (connWrite caps l c b).1 = l ∧ (connWrite caps l c b).2.2.delivered = b ∧
+    (connWrite caps l c b).2.2.evs = [] ∧ (connWrite caps l c b).2.2.status = .ok := by
+  simp [connWrite, h]
+
+/-- A shaped write that finds its shape replaced (or removed) performs no action at all, changes
+no count, and (if nothing else cuts it) delivers every byte. -/
+theorem replaced_shape_no_actions (caps : Nat → Nat) (c : Ctx) (acts : List Action) (b : Bytes) :
+    (shapedWrite false caps c acts b).evs = [] ∧ (shapedWrite false caps c acts b).acts = acts ∧
+    (shapedWrite false caps c acts b).cap = none := by
+  rw [shapedWrite_eq]
+  have := bodyLoop_invalid caps (fuelFor (b.drop (headPart c b)) acts) 0
+    { off := c.off, next := c.next, acts := acts, delivered := b.take (headPart c b) } (b.drop (headPart c b))
+  simpa using this
+
+/-! ## Configuration: rejection leaves the state unchanged; acceptance applies to later connections -/
+
+/-- A rejected configuration request leaves the listener exactly as it was. -/
+theorem invalid_config_rejected_state_unchanged (l : Listener) (cfg : RawConfig) (e : Reject)
+    (h : (configureSt l cfg).2 = some e) : (configureSt l cfg).1 = l := by
+  unfold configureSt at h ⊢
+  cases hc : configure l cfg with
+  | ok l' => simp [hc] at h
+  | error e' => simp
+
+/-- Every accepted configuration is well formed — i.e. a configuration with negative defaults, a
+null shape, an empty or invalid pattern, a negative bandwidth, a null / non-positive / malformed
+throttle, a null or negative halt or close action, a zero count, or overlapping throttle intervals
+is rejected. -/
+theorem accepted_config_wellformed (l l' : Listener) (cfg : RawConfig) (h : configure l cfg = .ok l') :
+    (∀ d, cfg.defaults = some d → d.up ≥ 0 ∧ d.down ≥ 0 ∧ d.lat ≥ 0) ∧
+    ∀ s ∈ cfg.shapes, ∃ rs r, s = some rs ∧ rs.regex = .valid r ∧ rs.maxBw ≥ 0 ∧
+      (∀ t ∈ rs.throttles, ∃ rt, t = some rt ∧ rt.bw > 0 ∧ ∃ st en, parseThrottleBytes rt.bytes = some (st, en)) ∧
+      (∀ x ∈ rs.halts, ∃ rh, x = some rh ∧ rh.byte ≥ 0 ∧ rh.dur ≥ 0 ∧ rh.count ≠ 0) ∧
+      (∀ x ∈ rs.closes, ∃ rc, x = some rc ∧ rc.byte ≥ 0 ∧ rc.count ≠ 0) := by
+  unfold configure at h
+  simp only at h
+  split at h
+  · cases h
+  · rename_i hd
+    constructor
+    · intro d hdd; simp only [hdd, Option.getD_some] at hd; omega
+    · cases hp : parseShapes 0 cfg.shapes with
+      | error e => simp [hp] at h
+      | ok ps =>
+        intro s hs
+        obtain ⟨k, hk, rfl⟩ := List.mem_iff_getElem.1 hs
+        obtain ⟨p, hp1, _⟩ := (parseShapes_ok_all cfg.shapes 0 ps hp).2 k hk
+        simp only [Nat.zero_add] at hp1
+        cases hsk : cfg.shapes[k] with
+        | none => rw [hsk] at hp1; simp [parseShape] at hp1
+        | some rs =>
+          rw [hsk] at hp1
+          unfold parseShape at hp1
+          simp only at hp1
+          cases hr : rs.regex with
+          | empty => simp [hr] at hp1
+          | bad => simp [hr] at hp1
+          | valid r =>
+            simp only [hr] at hp1
+            split at hp1
+            · cases hp1
+            · rename_i hmb
+              cases ht : parseThrottles k 0 rs.throttles with
+              | error e => simp [ht] at hp1
+              | ok ts =>
+                simp only [ht] at hp1
+                cases hh : parseHalts k 0 rs.halts with
+                | error e => simp [hh] at hp1
+                | ok hs' =>
+                  simp only [hh] at hp1
+                  cases hcl : parseCloses k rs.halts.length 0 rs.closes with
+                  | error e => simp [hcl] at hp1
+                  | ok cs =>
+                    exact ⟨rs, r, rfl, hr, by omega, parseThrottles_ok _ _ _ _ ht,
+                      (parseHalts_ok _ _ _ _ hh).1, (parseCloses_ok _ _ _ _ _ hcl).1⟩
+
+/-- Every accepted shape has throttles sorted by start that do not overlap (only the last one
+may be open-ended) and actions sorted by offset — the precondition of the binary searches. -/
+theorem accepted_shape_sorted_nonoverlapping (si : Nat) (rs : RawShape) (r : Nat) (sh : Shape)
+    (h : parseShape si (some rs) = .ok (r, sh)) :
+    SortedBy Throttle.start sh.throttles ∧ NoOverlap sh.throttles ∧ SortedBy Action.byte sh.actions ∧ sh.maxBw > 0 := by
+  unfold parseShape at h
+  simp only at h
+  cases hr : rs.regex with
+  | empty => simp [hr] at h
+  | bad => simp [hr] at h
+  | valid r' =>
+    simp only [hr] at h
+    split at h
+    · cases h
+    · rename_i hmb
+      cases ht : parseThrottles si 0 rs.throttles with
+      | error e => simp [ht] at h
+      | ok ts =>
+        simp only [ht] at h
+        cases hh : parseHalts si 0 rs.halts with
+        | error e => simp [hh] at h
+        | ok hs' =>
+          simp only [hh] at h
+          cases hcl : parseCloses si rs.halts.length 0 rs.closes with
+          | error e => simp [hcl] at h
+          | ok cs =>
+            simp only [hcl] at h
+            cases ha : actionsFromThrottles (if rs.maxBw = 0 then defaultBw else rs.maxBw)
+                (stableSort Throttle.start ts) with
+            | none => simp [ha] at h
+            | some tas =>
+              simp only [ha] at h
+              cases h
+              refine ⟨stableSort_sorted _ _, actionsFromThrottles_noOverlap _ _ _ ha, stableSort_sorted _ _, ?_⟩
+              simp only
+              split
+              · simp [defaultBw]
+              · omega
+
+/-- The binary searches of `conn.go` return what the linear definitions return, on every sorted
+action list / throttle list (in particular on every accepted shape). -/
+theorem binary_searches_are_linear (acts : List Action) (ts : List Throttle) (start : Int)
+    (ha : SortedBy Action.byte acts) (ht : SortedBy Throttle.start ts) :
+    nextFromByte acts start = nextFromByteLin acts start ∧
+    currentThrottle ts start = currentThrottleLin ts start := by
+  unfold nextFromByte nextFromByteLin currentThrottle currentThrottleLin
+  rw [searchGo_eq_linSearch _ _ (mono_byte acts ha start), searchGo_eq_linSearch _ _ (mono_start ts ht start)]
+  exact ⟨rfl, rfl⟩
+
+/-- The context that `Proxy.handle` sets for a new response satisfies the write-loop invariant:
+the first pending action is at or after the range start. -/
+theorem fresh_context_ok (acts : List Action) (rs : Int) (ha : SortedBy Action.byte acts) (c : Ctx)
+    (hoff : c.off = rs) (hn : c.next = nextFromByte acts rs) : CtxOK c acts := by
+  refine ⟨ha, ?_⟩
+  intro i nb h
+  rw [hn] at h
+  unfold nextFromByte at h
+  have sp := searchGo_spec _ _ (mono_byte acts ha rs) acts.length 0 acts.length rfl (Nat.zero_le _)
+    (Nat.le_refl _) (by intro m hm; omega) (by intro m h1 h2; omega)
+  have ns := nextFromIndex_spec acts _ (searchGo (fun i => decide (byteAt acts i ≥ rs)) 0 acts.length) rfl
+  rw [h] at ns
+  obtain ⟨h1, h2, h3, _, _⟩ := ns
+  refine ⟨h2, h3, ?_⟩
+  have := sp.2.2.2 i h1 h2
+  simp only [decide_eq_true_eq] at this
+  rw [byteAt_eq h2, h3] at this
+  omega
+
+/-- An accepted configuration applies only to connections accepted afterwards: a connection
+accepted before it sees no shape at all afterwards (so, by `replaced_shape_no_actions`, none of
+its writes performs an action), while a connection accepted after it sees exactly the new shapes. -/
+theorem accepted_applies_only_to_later_conns (l l' : Listener) (cfg : RawConfig)
+    (h : configure l cfg = .ok l') :
+    (∀ c : Conn, c.established < l.clock → ∀ r, validShape l' c r = none) ∧
+    (∀ r, validShape (accept l').1 (accept l').2 r = mapGet r l'.shapes) ∧
+    (accept l').2.locals = l'.shapes.map (fun p => (p.1, p.2.maxBw)) := by
+  unfold configure at h
+  simp only at h
+  split at h
+  · cases h
+  · cases hp : parseShapes 0 cfg.shapes with
+    | error e => simp [hp] at h
+    | ok ps =>
+      simp only [hp] at h
+      cases h
+      refine ⟨?_, ?_, ?_⟩
+      · intro c hc r
+        unfold validShape
+        simp only
+        split
+        · omega
+        · rfl
+      · intro r
+        simp [validShape, accept]
+      · simp [accept]
+
+/-! ## Non-vacuity and concrete witnesses (tests, by `decide`) -/
+
+/-- A shape with a halt at 3, a close (count 1) at 5 and a throttle 2-4. -/
+def exShape : RawShape :=
+  ⟨.valid 0, 0, [some ⟨strBytes "2-4", 7⟩], [some ⟨3, 1, -1⟩], [some ⟨5, 1⟩]⟩
+
+def exActs : List Action :=
+  [bwAct 2 7, ⟨3, -1, .halt 1, 0⟩, bwAct 4 defaultBw, ⟨5, 1, .close, 1⟩]
+
+example : (parseShape 0 (some exShape)).toOption.map (fun p => p.2.actions) = some exActs := by decide
+
+def exCtx : Ctx := { shaping := true, regex := some 0, off := 0, headerLen := 2, next := some (0, 2) }
+
+example : CtxOK exCtx exActs := by
+  refine ⟨?_, ?_⟩
+  · unfold SortedBy exActs; decide
+  · intro i nb h; cases h; exact ⟨by decide, by decide, by decide⟩
+
+/-- The hypotheses of `close_at_k` are satisfiable: head `[1,2]`, body of 8 bytes, close at 5. -/
+example : (shapedWrite true (fun _ => 0) exCtx exActs [1, 2, 10, 11, 12, 13, 14, 15, 16, 17]).status = .closed ∧
+    (shapedWrite true (fun _ => 0) exCtx exActs [1, 2, 10, 11, 12, 13, 14, 15, 16, 17]).delivered = [1, 2, 10, 11, 12, 13, 14] ∧
+    (shapedWrite true (fun _ => 0) exCtx exActs [1, 2, 10, 11, 12, 13, 14, 15, 16, 17]).evs =
+      [.setCap 7 2, .sleep 1 3, .setCap defaultBw 4, .forceClose 5] := by decide
+
+/-- `no_close_delivers_all` is not vacuous: a shorter body passes uncut. -/
+example : (shapedWrite true (fun _ => 3) exCtx exActs [1, 2, 10, 11, 12]).status = .ok := by decide
+
+/-- Overlapping throttles are rejected, adjacent ones accepted (concrete instances). -/
+example : (parseShape 0 (some ⟨.valid 0, 0, [some ⟨strBytes "5-10", 1⟩, some ⟨strBytes "0-6", 1⟩], [], []⟩)).toOption = none := by decide
+example : (parseShape 0 (some ⟨.valid 0, 0, [some ⟨strBytes "5-10", 1⟩, some ⟨strBytes "0-5", 1⟩], [], []⟩)).toOption.isSome = true := by decide
+
+end Martian.Props.C18
